@@ -187,6 +187,51 @@ Theorem C18_others_unaffected : forall oc oc' ds p, oc p = oc' p ->
 Proof. exact others_unaffected. Qed.
 Print Assumptions C18_others_unaffected.
 
+(* with a request time-out T and answer times tm (a hanging plugin: any time above T): whether p is kept depends on
+   p's own outcome and p's own answer time only — not on the other plugins' outcomes, times, number or order *)
+Theorem C18_start_depends_on_own_behaviour : forall T tm tm' oc oc' ds p, oc p = oc' p -> tm p = tm' p ->
+  (In p (start_plugins (timed_outcome T tm oc) ds) <-> In p (start_plugins (timed_outcome T tm' oc') ds)).
+Proof. exact start_depends_on_own_behaviour. Qed.
+Print Assumptions C18_start_depends_on_own_behaviour.
+
+(* a healthy discovered plugin answering within the time-out is kept whatever time every other plugin takes … *)
+Theorem C18_slow_plugins_do_not_affect_others : forall T tm oc ds p,
+  In p ds -> active (oc p) = true -> (tm p <= T)%Z -> In p (start_plugins (timed_outcome T tm oc) ds).
+Proof. exact timely_plugin_kept. Qed.
+Print Assumptions C18_slow_plugins_do_not_affect_others.
+
+(* … and one that does not answer in time is skipped and killed *)
+Theorem C18_late_plugin_dropped : forall T tm oc ds p, (T < tm p)%Z ->
+  ~ In p (start_plugins (timed_outcome T tm oc) ds) /\
+  (launches (oc p) = true -> state_after_start (timed_outcome T tm oc p) = Some PGone).
+Proof. exact late_plugin_dropped. Qed.
+Print Assumptions C18_late_plugin_dropped.
+
+(* process level: what Start leaves of each launched plugin is a function of the SyncFn's behaviour and of that
+   plugin's own outcome *)
+Theorem C18_start_world_pointwise : forall calls fails oc ds,
+  start_world calls fails oc ds = map (fun p => start_record calls fails (oc p) p) (filter (fun p => launches (oc p)) ds).
+Proof. exact start_world_pointwise. Qed.
+Print Assumptions C18_start_world_pointwise.
+
+(* not vacuous: with ONE deadline shared by the whole synchronisation loop a prompt healthy plugin after a hanging
+   one is dropped *)
+Theorem C18_shared_deadline_refuted : exists T tm oc ds p,
+  In p ds /\ active (oc p) = true /\ (tm p <= T)%Z /\ ~ In p (synced_shared_deadline T tm oc 0 (started oc ds)).
+Proof. exact shared_deadline_refuted. Qed.
+Print Assumptions C18_shared_deadline_refuted.
+
+Example C18_sync_timeout_example :
+  let p i b := {| d_idx := i; d_base := b; d_cfg := "" |} in
+  let ds := [p "05" "a"; p "10" "hang"; p "20" "b"; p "30" "slow"; p "40" "c"] in
+  let tm q := if String.eqb (d_base q) "hang" then 100000%Z else if String.eqb (d_base q) "slow" then 900%Z else 5%Z in
+  let oc (_ : discovered) := OGood in
+  map d_name (start_plugins (timed_outcome 1000 tm oc) ds) = ["05-a"; "20-b"; "30-slow"; "40-c"] /\
+  map d_name (synced_shared_deadline 1000 tm oc 0 (started oc ds)) = ["05-a"] /\
+  map d_name (synced_shared_deadline 1000 tm oc 0 (started oc [p "05" "a"; p "20" "b"; p "30" "slow"; p "31" "slow"; p "40" "c"]))
+    = ["05-a"; "20-b"; "30-slow"].
+Proof. repeat split; reflexivity. Qed.
+
 Theorem C18_active_is_permutation : forall oc ds,
   Permutation (filter (fun p => active (oc p)) ds) (start_plugins oc ds).
 Proof. exact start_plugins_perm. Qed.
